@@ -477,6 +477,33 @@ var untidies = []untidy{
 			"while busy:\n    " + tgt,
 		}))
 	}},
+	{"trailing-block-call-to-quiet-endpoint", func(g *mgen) {
+		// an endpoint whose LAST statement is a control block whose last statement is a call to an
+		// endpoint of another application that draws no reply (no return / primitive return)
+		a, b := g.pickSvc(), g.pickSvc()
+		for tries := 0; tries < 8 && b == a; tries++ {
+			b = g.pickSvc()
+		}
+		q := &mEp{Name: fmt.Sprintf("Quiet%d", g.n()), Stmts: []string{g.r.Pick([]string{"log it", "log it\nreturn ok <: string", "..."})}}
+		b.Eps = append(b.Eps, q)
+		call := b.Name + " <- " + q.Name
+		t := &mEp{Name: fmt.Sprintf("Tail%d", g.n()), Stmts: []string{"prepare", g.r.Pick([]string{
+			"if cond:\n    " + call,
+			"if cond:\n    other\nelse:\n    " + call,
+			"loop until done:\n    step\n    " + call,
+			"for each x in xs:\n    if deep:\n        " + call,
+			"one of:\n    case1:\n        nothing\n    case2:\n        " + call,
+			"while busy:\n    " + call,
+			"until ready:\n    " + call,
+		})}}
+		a.Eps = append(a.Eps, t)
+		if s := g.m.app(seqsApp); s != nil {
+			s.Eps = append(s.Eps, &mEp{Name: fmt.Sprintf("SEQ-Tail%d", g.n()), Stmts: []string{a.Name + " <- " + t.Name}})
+		}
+		if _, e := g.pickEp(); e != t && e != q {
+			e.Stmts = append([]string{a.Name + " <- " + t.Name}, e.Stmts...)
+		}
+	}},
 	{"type-ref-dangling", func(g *mgen) {
 		_, t := g.pickType(g.r.Pick([]string{"type", "type", "table"}))
 		t.Lines = append(t.Lines, g.fld()+" <: "+g.r.Pick([]string{"Nowhere", "Nowhere?", "Nowhere.id"}))
